@@ -226,6 +226,12 @@ class ConstEval(object):
       if d == "float" and len(n.args) == 1 and isinstance(n.args[0], ast.Constant) and \
           n.args[0].value in ("inf", "-inf"):
         return float(n.args[0].value)
+      pass
+    if isinstance(n, ast.Call) and not n.args and n.keywords and dotted(n.func) == "dict" and \
+        all(k.arg is not None for k in n.keywords):
+      return OrderedPairs([(k.arg, self.ev(k.value)) for k in n.keywords])
+    if isinstance(n, ast.Call) and not n.keywords:
+      d = dotted(n.func)
       if d == "dict" and len(n.args) == 1 and isinstance(n.args[0], ast.Call) and \
           dotted(n.args[0].func) == "zip" and len(n.args[0].args) == 2:
         a, b = (self.ev(x) for x in n.args[0].args)
@@ -991,7 +997,7 @@ class View(object):
     set for names that are not locals (globals, builtins)."""
     return self._reaching().get(nid, {}).get(name, frozenset())
 
-  def _plain_value(self, name, nid):
+  def _plain_value(self, name, nid, _guard=False):
     """value expr if CFG node nid is a plain `name = value` statement, else None"""
     if nid == self.ENTRY:
       return None
@@ -1014,6 +1020,28 @@ class View(object):
               if isinstance(t, ast.Name) and t.id == name]
       if len(hits) == 1:
         return hits[0]
+    # a, b = pair  where the only binding of `pair` that can be unpacked is a tuple display
+    # (a binding to None cannot reach past the unpacking: it raises)
+    if isinstance(s, ast.Assign) and len(s.targets) == 1 and \
+        isinstance(s.targets[0], (ast.Tuple, ast.List)) and isinstance(s.value, ast.Name) and \
+        not _guard:
+      idx = [i for i, t in enumerate(s.targets[0].elts)
+             if isinstance(t, ast.Name) and t.id == name]
+      if len(idx) == 1 and not any(isinstance(t, ast.Starred) for t in s.targets[0].elts):
+        cands = []
+        for d in self.reaching(s.value.id, nid):
+          v = self._plain_value(s.value.id, d, _guard=True) if d != self.ENTRY else None
+          if isinstance(v, ast.Constant) and v.value is None:
+            continue
+          cands.append((d, v))
+        if len(cands) == 1 and isinstance(cands[0][1], (ast.Tuple, ast.List)) and \
+            len(cands[0][1].elts) == len(s.targets[0].elts):
+          d2, tup = cands[0]
+          elt = tup.elts[idx[0]]
+          stable = all(self.reaching(y.id, d2) == self.reaching(y.id, nid)
+                       for y in ast.walk(elt) if isinstance(y, ast.Name))
+          if stable and not isinstance(elt, ast.Starred):
+            return elt
     return None
 
   def _nonplain_defs(self, name):
@@ -1067,11 +1095,14 @@ class View(object):
       changed = True
       while changed:
         changed = False
-        for n in walk_no_nested(self.node):
-          if isinstance(n, ast.Assign) and len(n.targets) == 1 and \
-              isinstance(n.targets[0], ast.Name) and n.targets[0].id in out and \
-              not _allocates(n.value):
-            r = chain_root(n.value)
+        for nid, names in self._gens().items():
+          for nm in names:
+            if nm not in out:
+              continue
+            val = self._plain_value(nm, nid)
+            if val is None or _allocates(val):
+              continue
+            r = chain_root(val)
             if r is not None and r not in out:
               out.add(r)
               changed = True
@@ -1496,11 +1527,18 @@ class View(object):
     if mk not in self._edge_cache:
       out = {}
       for n in self.cfg.nodes:
-        if n.kind != "if" or n.id not in self.cfg.if_true:
+        if n.kind == "if" and n.id in self.cfg.if_true:
+          t_succ = set(self.cfg.if_true[n.id])
+          exc = set(self.cfg.if_exc.get(n.id, set()))
+          f_succ = set(self.cfg.succ[n.id]) - t_succ - exc
+        elif n.kind == "while" and n.stmt is not None:
+          # entering the body: the test was true; leaving (not through break): it was false
+          inside = {id(y) for b in n.stmt.body for y in ast.walk(b)}
+          normal = set(self.cfg.normal_succ(n.id))
+          t_succ = {x for x in normal if id(self.cfg.nodes[x].stmt) in inside}
+          f_succ = normal - t_succ
+        else:
           continue
-        t_succ = set(self.cfg.if_true[n.id])
-        exc = set(self.cfg.if_exc.get(n.id, set()))
-        f_succ = set(self.cfg.succ[n.id]) - t_succ - exc
         for pol, succ in ((True, t_succ), (False, f_succ)):
           for (e, p) in _G.facts(n.stmt.test, pol):
             key = self.atom(e, p, mapping, at=n.id)
@@ -2047,7 +2085,7 @@ def _subst(e, env):
   return T(set()).visit(copy.deepcopy(e))
 
 
-def decision_arms(fnode, limit=400):
+def decision_arms(fnode, limit=400, never_returns=None):
   """Every path of a function whose body consists of assignments, expression statements,
   if/elif/else, return and raise (conditional expressions in returned values are split into
   paths as well), as a list of Arm. Local assignments are substituted into later conditions and
@@ -2071,7 +2109,11 @@ def decision_arms(fnode, limit=400):
         return []
       nxt = []
       for (conds, env) in states:
-        if isinstance(s, ast.Expr):
+        if isinstance(s, ast.Expr) and never_returns is not None and \
+            isinstance(s.value, ast.Call) and never_returns(s.value):
+          # a call that always raises ends the path
+          arms.append(Arm(list(conds), "raise", _subst(s.value, env), s))
+        elif isinstance(s, ast.Expr):
           nxt.append((conds, env))
         elif isinstance(s, (ast.Pass, ast.Import, ast.ImportFrom, ast.Global, ast.Nonlocal,
                             ast.FunctionDef, ast.ClassDef, ast.Assert, ast.Delete)):
@@ -2134,46 +2176,73 @@ def _always_exits(stmts):
   return False
 
 
-def _structure_returns(stmts):
-  """Rewrite `if c: ...; return A` followed by more statements into if/else so that every return
-  is in tail position. Returns new list (copies only where it restructures) or None when a return
-  sits somewhere this cannot reach (inside a loop, try, with)."""
+def _structure_returns(stmts, cont=None, budget=None):
+  """Rewrite a helper body so that every `return` is the last thing on its path: what follows a
+  statement that may return is moved (duplicated) into the branches that fall through --
+  `if c: return A` + REST becomes `if c: return A / else: REST`; `try: B except E: return None`
+  + REST becomes `try: B / except E: return None / else: REST`. Every path of the result ends
+  in a Return (a path that falls off the end gets `return None`). None when a return sits
+  inside a loop, a with block, a try body or a finally block, or the result would get too big."""
+  if budget is None:
+    budget = [120]
+  if cont is None:
+    cont = [ast.Return(value=ast.Constant(value=None))]
+
+  def spend(n=1):
+    budget[0] -= n
+    return budget[0] >= 0
+
   out = []
   for i, s in enumerate(stmts):
     rest = stmts[i + 1:]
-    if isinstance(s, ast.If):
-      body = _structure_returns(s.body)
-      orelse = _structure_returns(s.orelse) if s.orelse else []
-      if body is None or orelse is None:
+    if isinstance(s, ast.Return):
+      if not spend():
         return None
-      if rest and _has_return(s):
-        if _always_exits(body) and not _always_exits(orelse):
-          tail = _structure_returns(orelse + rest)
-          if tail is None:
-            return None
-          out.append(ast.copy_location(ast.If(test=s.test, body=body, orelse=tail), s))
-          return out
-        if _always_exits(orelse) and not _always_exits(body):
-          tail = _structure_returns(body + rest)
-          if tail is None:
-            return None
-          out.append(ast.copy_location(ast.If(test=s.test, body=tail, orelse=orelse), s))
-          return out
-        if _always_exits(body) and _always_exits(orelse):
-          out.append(ast.copy_location(ast.If(test=s.test, body=body, orelse=orelse), s))
-          return out
-        return None
-      out.append(ast.copy_location(ast.If(test=s.test, body=body, orelse=orelse), s))
-    elif isinstance(s, ast.Return):
       out.append(s)
       return out
-    elif isinstance(s, (ast.For, ast.While, ast.Try, ast.With, ast.AsyncFor, ast.AsyncWith)):
-      if _has_return(s):
+    if isinstance(s, ast.Raise):
+      if not spend():
         return None
       out.append(s)
-    else:
-      out.append(s)
-  return out
+      return out
+    if isinstance(s, ast.If) and _has_return(s):
+      rc = _structure_returns(rest, cont, budget)
+      if rc is None:
+        return None
+      body = _structure_returns(s.body, rc, budget)
+      orelse = _structure_returns(s.orelse, rc, budget)
+      if body is None or orelse is None or not spend():
+        return None
+      out.append(ast.copy_location(ast.If(test=s.test, body=body, orelse=orelse), s))
+      return out
+    if isinstance(s, ast.Try) and _has_return(s):
+      if any(_has_return(b) for b in s.body) or any(_has_return(b) for b in s.finalbody):
+        return None
+      rc = _structure_returns(rest, cont, budget)
+      if rc is None:
+        return None
+      handlers = []
+      for h in s.handlers:
+        hb = _structure_returns(h.body, rc, budget)
+        if hb is None:
+          return None
+        h2 = copy.copy(h)
+        h2.body = hb
+        handlers.append(h2)
+      orelse = _structure_returns(s.orelse, rc, budget)
+      if orelse is None or not spend():
+        return None
+      t2 = copy.copy(s)
+      t2.handlers = handlers
+      t2.orelse = orelse
+      out.append(t2)
+      return out
+    if _has_return(s):
+      return None          # a return inside a loop / with block
+    if not spend():
+      return None
+    out.append(s)
+  return out + list(cont)
 
 
 def _has_return(s):
@@ -2208,6 +2277,7 @@ class _Inliner(object):
     self.depth = depth
     self.counter = [0]
     self.changed = False
+    self.inlined = set()
 
   def callee(self, call, stack):
     f = call.func
@@ -2295,15 +2365,21 @@ class _Inliner(object):
           s2 = ast.If(test=R().visit(copy.deepcopy(s.test)), body=conv(s.body) or
                       [ast.copy_location(ast.Pass(), s)], orelse=conv(s.orelse))
           res.append(ast.copy_location(s2, s))
+        elif isinstance(s, ast.Try) and _has_return(s):
+          hs = []
+          for h in s.handlers:
+            h2 = ast.ExceptHandler(type=R().visit(copy.deepcopy(h.type)) if h.type else None,
+                                   name=ren.get(h.name, h.name) if h.name else None,
+                                   body=conv(h.body) or [ast.copy_location(ast.Pass(), s)])
+            hs.append(ast.copy_location(h2, h))
+          s2 = ast.Try(body=[R().visit(copy.deepcopy(b)) for b in s.body], handlers=hs,
+                       orelse=conv(s.orelse),
+                       finalbody=[R().visit(copy.deepcopy(b)) for b in s.finalbody])
+          res.append(ast.copy_location(s2, s))
         else:
           res.append(R().visit(copy.deepcopy(s)))
       return res
 
-    if how == "assign" and not _always_exits(body):
-      # a path that falls off the end of the helper yields None
-      out.append(ast.copy_location(
-        ast.Assign(targets=[copy.deepcopy(t) for t in targets], value=ast.Constant(value=None),
-                   lineno=call.lineno), call))
     out.extend(conv(body))
     for s in out:
       ast.fix_missing_locations(s)
@@ -2333,8 +2409,10 @@ class _Inliner(object):
           rep = self.instantiate(fi, is_method, call, body, how, targets)
           if rep is not None:
             self.changed = True
+            self.inlined.add(fi.qualname)
             sub = _Inliner(self.world, fi, self.keep, depth - 1)
             sub.counter = self.counter
+            sub.inlined = self.inlined
             # helpers called by the helper (one more level)
             return sub.block(rep, stack | {fi.qualname}, depth - 1)
     # recurse into compound statements, sharing untouched sub-statements
@@ -2386,6 +2464,7 @@ def expand_helpers(world, fi, keep=(), depth=2):
   node.body = body
   out = FuncInfo(fi.module, fi.cls, node, fi.qualname, fi.parent)
   out.expanded_from = fi
+  out.inlined = set(inl.inlined)
   return out
 
 
